@@ -6,9 +6,7 @@ CONSTANTS
   KK = 2
   StaleC = 15
   RefreshKnownC = TRUE
-  RekeySortedC = TRUE
+  RekeySortedC = FALSE
   ClosestKnownFinding = TRUE
-INVARIANT Structure
 INVARIANT AddSteps
-INVARIANT ClosestL1
 CHECK_DEADLOCK FALSE
